@@ -233,10 +233,21 @@ pub fn execute(sc: &Scenario, verbose: bool) -> RunOut {
             let mut first_text: Option<String> = None;
             for (i, t) in all.iter().enumerate() {
                 let r = catch_unwind(AssertUnwindSafe(|| {
-                    let table = match t.to_value() {
+                    let mut table = match t.to_value() {
                         toml::Value::Table(t) => t,
                         _ => unreachable!(),
                     };
+                    // the same table reached through another edit history: re-insert an existing key
+                    // (keeps its place), remove the first key and add it again (moves it to the end
+                    // under preserve_order)
+                    if i % 2 == 1 {
+                        let first = table.iter().next().map(|(k, v)| (k.clone(), v.clone()));
+                        if let Some((k, v)) = first {
+                            table.insert(k.clone(), v.clone());
+                            table.remove(&k);
+                            table.insert(k, v);
+                        }
+                    }
                     let a = toml::to_string(&table).map_err(|e| e.to_string());
                     let b = toml::to_string(&table).map_err(|e| e.to_string());
                     let d = table.to_string();
